@@ -9,7 +9,7 @@
    GC.validateConfig (C19_validate_is_generated).  [X : Ext] holds the library functions
    (net.SplitHostPort, url.Parse, ...): the class theorems hold for EVERY X. *)
 From BR Require Import Base.Prelude Gen.Config Model.Config Bridge.Bridge_Config
-  Proofs.Config_validate Proofs.Config_agree Proofs.Config_agree2 Proofs.Config_wiring.
+  Proofs.Config_validate Proofs.Config_agree Proofs.Config_agree2 Proofs.Config_agree3 Proofs.Config_wiring.
 Open Scope string_scope.
 Open Scope Z_scope.
 
@@ -188,19 +188,23 @@ Print Assumptions C19_agree_refuted_s3_defaults.
    s3.bucket_lookup_type and s3.aws_profile given whenever s3.bucket is. *)
 Definition C19_agree_partial_statement : Prop := C19_agree_statement expressible_in_both.
 
-(* proved so far (the composition over GC.get / GC.NewFromYaml is work in progress, see the report):
+Theorem C19_agree_partial : C19_agree_partial_statement.
+Proof. intros up s H. exact (agree_partial up s H). Qed.
+Print Assumptions C19_agree_partial.
+
+(* two ingredients of that proof, of independent interest:
    (a) validation cannot tell apart two configurations that differ only in the hard limit being
        -1 or 0 and the LDAP user attribute being "" or "uid" — the two places where the front ends'
        defaults differ harmlessly; *)
-Theorem C19_agree_partial_validation :
+Theorem C19_agree_validation_ignores_harmless_defaults :
   forall X c1 c2, canon c1 = canon c2 ->
     eff (bind (GC.validateConfig X c1) (fun c => Ok c)) = eff (bind (GC.validateConfig X c2) (fun c => Ok c)).
 Proof. exact finish_eff. Qed.
-Print Assumptions C19_agree_partial_validation.
+Print Assumptions C19_agree_validation_ignores_harmless_defaults.
 
 (*  (b) every single flag read equals the read of its YAML key (same value when given, same default
-        when omitted), for every flag whose cli default is the YAML default; *)
-Theorem C19_agree_partial_reads :
+        when omitted), for every flag whose cli default is the YAML default *)
+Theorem C19_agree_reads :
   forall s, flags_ok s = true ->
     let ctx := ctx_of (fun n => lookup n s) in
     let y := yaml_data_of (fun n => lookup n s) in
@@ -217,7 +221,7 @@ Proof.
   - apply (ctxB s H).
   - apply (ctxD s H).
 Qed.
-Print Assumptions C19_agree_partial_reads.
+Print Assumptions C19_agree_reads.
 
 (* ------------------------------------------------------------------ *)
 (* non-vacuity *)
